@@ -292,4 +292,214 @@ theorem resolveIdent_sound_aux {env0 : List (List Node)} (hwf : EnvWF env0) :
         | inherit a b => simp only [Option.some.injEq] at h; subst h; exact Defines.value hl rfl
         | entry a b c d => simp only [Option.some.injEq] at h; subst h; exact Defines.value hl rfl
 
+/-! ## 5. paths: the Binding objects a `Defines` derivation visits -/
+
+/-- `Path env name p bid`: the derivation of `Defines env name bid` enters the bindings with
+    identities `p` (in that order; the last one is `bid`). Proof device. -/
+inductive Path : List (List Node) → Text → List Nat → Nat → Prop
+  | value {env env' : List (List Node)} {name nm : Text} {bid : Nat} {ne : Bool} {v : Node}
+      {bf af : Payload} :
+      lookupEnv name env = some (.bind bid nm ne v bf af, env') → v.isIdent = false →
+      Path env name [bid] bid
+  | ref {env env' : List (List Node)} {name nm n' : Text} {i bid : Nat} {ne : Bool}
+      {bf af : Payload} {p : List Nat} :
+      lookupEnv name env = some (.bind i nm ne (.ident n') bf af, env') → Path env' n' p bid →
+      Path env name (i :: p) bid
+
+theorem Path.of_defines {env : List (List Node)} {name : Text} {bid : Nat}
+    (h : Defines env name bid) : ∃ p, Path env name p bid := by
+  induction h with
+  | value hl hv => exact ⟨_, Path.value hl hv⟩
+  | ref hl _ ih => obtain ⟨p, hp⟩ := ih; exact ⟨_, Path.ref hl hp⟩
+
+theorem Path.defines {env : List (List Node)} {name : Text} {p : List Nat} {bid : Nat}
+    (h : Path env name p bid) : Defines env name bid := by
+  induction h with
+  | value hl hv => exact Defines.value hl hv
+  | ref hl _ ih => exact Defines.ref hl ih
+
+/-- the SPEC is functional: one path, one defining binding -/
+theorem Path.det {env : List (List Node)} {name : Text} {p q : List Nat} {a b : Nat}
+    (h1 : Path env name p a) (h2 : Path env name q b) : p = q ∧ a = b := by
+  induction h1 generalizing q b with
+  | value hl hv =>
+    cases h2 with
+    | value hl2 _ =>
+      rw [hl] at hl2
+      simp only [Option.some.injEq, Prod.mk.injEq, Node.bind.injEq] at hl2
+      obtain ⟨⟨rfl, _⟩, _⟩ := hl2
+      exact ⟨rfl, rfl⟩
+    | ref hl2 _ =>
+      rw [hl] at hl2
+      simp only [Option.some.injEq, Prod.mk.injEq, Node.bind.injEq] at hl2
+      obtain ⟨⟨_, _, _, rfl, _⟩, _⟩ := hl2
+      simp [Node.isIdent] at hv
+  | ref hl _ ih =>
+    cases h2 with
+    | value hl2 hv2 =>
+      rw [hl] at hl2
+      simp only [Option.some.injEq, Prod.mk.injEq, Node.bind.injEq] at hl2
+      obtain ⟨⟨_, _, _, rfl, _⟩, _⟩ := hl2
+      simp [Node.isIdent] at hv2
+    | ref hl2 hp2 =>
+      rw [hl] at hl2
+      simp only [Option.some.injEq, Prod.mk.injEq, Node.bind.injEq, Node.ident.injEq] at hl2
+      obtain ⟨⟨rfl, _, _, rfl, _⟩, rfl⟩ := hl2
+      obtain ⟨rfl, rfl⟩ := ih hp2
+      exact ⟨rfl, rfl⟩
+
+theorem Defines.det {env : List (List Node)} {name : Text} {a b : Nat}
+    (h1 : Defines env name a) (h2 : Defines env name b) : a = b := by
+  obtain ⟨p, hp⟩ := Path.of_defines h1
+  obtain ⟨q, hq⟩ := Path.of_defines h2
+  exact (Path.det hp hq).2
+
+theorem Path.ne_nil {env : List (List Node)} {name : Text} {p : List Nat} {bid : Nat}
+    (h : Path env name p bid) : p ≠ [] := by
+  cases h <;> simp
+
+/-- every identity on the path is the identity of a Binding object of the environment -/
+theorem Path.mem_envIds {env : List (List Node)} {name : Text} {p : List Nat} {bid : Nat}
+    (h : Path env name p bid) : ∀ i ∈ p, i ∈ envIds env := by
+  induction h with
+  | value hl _ =>
+    intro i hi
+    obtain ⟨hsuf, f, outer, rfl, hf⟩ := lookupEnv_spec hl
+    simp only [List.mem_singleton] at hi
+    subst hi
+    exact mem_envIds_of_mem (suffix_subset hsuf f (by simp)) (List.mem_of_find?_eq_some hf) rfl
+  | ref hl _ ih =>
+    intro j hj
+    obtain ⟨hsuf, f, outer, rfl, hf⟩ := lookupEnv_spec hl
+    rcases List.mem_cons.1 hj with rfl | hj
+    · exact mem_envIds_of_mem (suffix_subset hsuf f (by simp)) (List.mem_of_find?_eq_some hf) rfl
+    · exact (envIds_suffix hsuf).subset (ih j hj)
+
+/-- *Unique position.* With distinct identities, a Binding object with identity `i` that heads a
+    suffix of `f :: outer` where `f` already holds an object with identity `i` is that object, and
+    the suffix is the whole. -/
+theorem unique_position {f : List Node} {outer e' : List (List Node)} {f2 : List Node}
+    {o2 : List (List Node)} {b b2 : Node} {i : Nat}
+    (hn : (envIds (f :: outer)).Nodup) (hb : b ∈ f) (hbi : b.bindId? = some i)
+    (hsuf : e' <:+ f :: outer) (he : e' = f2 :: o2) (hb2 : b2 ∈ f2) (hb2i : b2.bindId? = some i) :
+    e' = f :: outer ∧ b2 = b := by
+  rw [envIds_cons, List.nodup_append] at hn
+  rcases List.suffix_cons_iff.1 hsuf with h | h
+  · refine ⟨h, ?_⟩
+    rw [he] at h
+    injection h with h1 _
+    subst h1
+    exact eq_of_nodup_filterMap bindId? hn.1 hb2 hb hb2i hbi
+  · exfalso
+    have h1 : i ∈ f.filterMap bindId? := List.mem_filterMap.2 ⟨b, hb, hbi⟩
+    have h2 : i ∈ envIds outer :=
+      mem_envIds_of_mem (suffix_subset h f2 (by rw [he]; simp)) hb2 hb2i
+    exact hn.2.2 i h1 i h2 rfl
+
+/-- If a path that starts inside `env'` (where the object `i`, holding the reference `n'`, heads
+    `env'`) enters object `i`, the path from `(env', n')` is strictly shorter. -/
+theorem Path.revisit {env' : List (List Node)} {f : List Node} {outer : List (List Node)}
+    (henv : env' = f :: outer) (hn : (envIds env').Nodup) {i : Nat} {nm n' : Text} {ne : Bool}
+    {bf af : Payload} (hb : Node.bind i nm ne (.ident n') bf af ∈ f) :
+    ∀ {e : List (List Node)} {n : Text} {p : List Nat} {bid : Nat}, Path e n p bid → e <:+ env' →
+      i ∈ p → ∃ q, Path env' n' q bid ∧ q.length < p.length := by
+  intro e n p bid h
+  induction h with
+  | value hl hv =>
+    intro hsuf hi
+    exfalso
+    obtain ⟨hs2, f2, o2, he2, hf2⟩ := lookupEnv_spec hl
+    simp only [List.mem_singleton] at hi
+    subst hi
+    have := (unique_position (henv ▸ hn) hb rfl (henv ▸ List.IsSuffix.trans hs2 hsuf) he2
+      (List.mem_of_find?_eq_some hf2) rfl).2
+    simp only [Node.bind.injEq] at this
+    obtain ⟨_, _, _, rfl, _⟩ := this
+    simp [Node.isIdent] at hv
+  | @ref e e2 n nm2 n2 j bid ne2 bf2 af2 p' hl hp ih =>
+    intro hsuf hi
+    obtain ⟨hs2, f2, o2, he2, hf2⟩ := lookupEnv_spec hl
+    have hsuf2 : e2 <:+ env' := List.IsSuffix.trans hs2 hsuf
+    rcases List.mem_cons.1 hi with rfl | hi
+    · obtain ⟨h1, h2⟩ := unique_position (henv ▸ hn) hb rfl (henv ▸ hsuf2) he2
+        (List.mem_of_find?_eq_some hf2) rfl
+      simp only [Node.bind.injEq, Node.ident.injEq] at h2
+      obtain ⟨_, _, _, rfl, _⟩ := h2
+      rw [← henv] at h1
+      subst h1
+      exact ⟨p', hp, by simp⟩
+    · obtain ⟨q, hq, hlt⟩ := ih hsuf2 hi
+      exact ⟨q, hq, by simp only [List.length_cons]; omega⟩
+
+/-- *No revisit.* With distinct identities a path never enters the same Binding object twice. -/
+theorem Path.nodup {env : List (List Node)} {name : Text} {p : List Nat} {bid : Nat}
+    (h : Path env name p bid) (hn : (envIds env).Nodup) : p.Nodup := by
+  induction h with
+  | value _ _ => simp
+  | @ref e e2 n nm2 n2 j bid ne2 bf2 af2 p' hl hp ih =>
+    obtain ⟨hs2, f2, o2, he2, hf2⟩ := lookupEnv_spec hl
+    have hn2 := envIds_nodup_suffix hs2 hn
+    rw [List.nodup_cons]
+    refine ⟨fun hj => ?_, ih hn2⟩
+    obtain ⟨q, hq, hlt⟩ := Path.revisit he2 hn2 (List.mem_of_find?_eq_some hf2) hp
+      (List.suffix_refl _) hj
+    have := (Path.det hq hp).1
+    subst this
+    omega
+
+/-- The path is no longer than the number of bindings — the fuel bound. -/
+theorem Path.length_le {env : List (List Node)} {name : Text} {p : List Nat} {bid : Nat}
+    (h : Path env name p bid) (hn : (envIds env).Nodup) : p.length ≤ env.flatten.length :=
+  Nat.le_trans (length_le_of_nodup_subset (h.nodup hn) h.mem_envIds) (envIds_length_le env)
+
+/-- Completeness along a path: enough fuel, nothing of the path visited yet. -/
+theorem resolveIdent_complete_aux {env0 : List (List Node)} (hwf : EnvWF env0) (hinh : InhWF env0) :
+    ∀ {env : List (List Node)} {name : Text} {p : List Nat} {bid : Nat}, Path env name p bid →
+      ∀ (fuel : Nat) (vis : List Nat), (∀ f ∈ env, f ∈ env0) → nixName name = name →
+      (∀ g ∈ env0, inheritMentions g name = false) → p.Nodup → (∀ i ∈ p, i ∉ vis) →
+      p.length ≤ fuel → resolveIdent fuel env name vis = some bid := by
+  intro env name p bid h
+  induction h with
+  | @value env env' name nm bid ne v bf af hl hv =>
+    intro fuel vis hsub hname hclear _ hvis hlen
+    cases fuel with
+    | zero => simp at hlen
+    | succ fuel =>
+      have hnv : vis.contains bid = false := by
+        simpa using hvis bid (by simp)
+      simp only [resolveIdent, scanChain_eq_lookupEnv hwf hname hclear hsub, hl, bindId?, bindValue?,
+        hnv, Bool.false_eq_true, if_false]
+      cases v <;> simp [Node.isIdent] at hv ⊢
+  | @ref env env' name nm n' i bid ne bf af p' hl hp ih =>
+    intro fuel vis hsub hname hclear hnd hvis hlen
+    cases fuel with
+    | zero => simp at hlen
+    | succ fuel =>
+      obtain ⟨hsuf, f, outer, rfl, hf⟩ := lookupEnv_spec hl
+      have hbf := List.mem_of_find?_eq_some hf
+      have hfm : f ∈ env0 := hsub f (suffix_subset hsuf f (by simp))
+      have hnv : vis.contains i = false := by
+        simpa using hvis i (by simp)
+      rw [List.nodup_cons] at hnd
+      simp only [resolveIdent, scanChain_eq_lookupEnv hwf hname hclear hsub, hl, bindId?, bindValue?,
+        hnv, Bool.false_eq_true, if_false]
+      refine ih fuel (i :: vis) (fun g hg => hsub g (suffix_subset hsuf g hg))
+        (hwf.ident f hfm _ _ _ _ _ _ hbf) (hinh f hfm _ _ _ _ _ _ hbf) hnd.2 ?_ ?_
+      · intro j hj hm
+        rcases List.mem_cons.1 hm with rfl | hm
+        · exact hnd.1 hj
+        · exact hvis j (by simp [hj]) hm
+      · simp only [List.length_cons] at hlen; omega
+
+/-- the fuel `assignThrough` passes: one more than the number of items of the chain -/
+theorem chain_fuel (chain : List (List Node)) (a : Nat) :
+    chain.foldl (fun n s => n + s.length) a = a + chain.flatten.length := by
+  induction chain generalizing a with
+  | nil => simp
+  | cons s rest ih => simp only [List.foldl_cons, ih, List.flatten_cons, List.length_append]; omega
+
+theorem flatten_reverse_length {α} (chain : List (List α)) :
+    chain.reverse.flatten.length = chain.flatten.length := by
+  simp [List.length_flatten, List.sum_reverse]
+
 end Nima
